@@ -49,7 +49,7 @@ fn p1_alphabet(n: usize, tier: Tier) -> Vec<Dev> {
                 true
             }));
         }
-        let lits: Vec<&str> = if tier == Tier::Quick { vec!["t", "tété tt", "", "{{x}}"] } else { vec!["t", "tété tt", "", "éé", "a b", "0123456789abcdef", "{{x}}", "}}{{"] };
+        let lits: Vec<&str> = if tier == Tier::Quick { vec!["t", "tété tt", "", "{{x}}", "q\"b\\n"] } else { vec!["t", "tété tt", "", "éé", "a b", "0123456789abcdef", "{{x}}", "}}{{", "q\"b\\n"] };
         for l in lits {
             d.push(dev(format!("v{}.to_string={:?}", i, l), &[&format!("tos{}", i)], move |s| {
                 s.variants[i].to_string = Some(l.to_string());
